@@ -5,7 +5,7 @@ W = 'workspace/src/workspace.rs'
 
 def fn(name, **kw):
     d = {'kind': 'fn', 'src': W, 'path': 'impl Workspace::fn ' + name, 'key': 'workspace::Workspace::' + name,
-         'props': ['C17'], 'auto_props': ['C17'], 'body_prefix': PRE, 'loops': 0}
+         'props': ['C17', 'C18'], 'auto_props': ['C17', 'C18'], 'body_prefix': PRE, 'loops': 0}
     d.update(kw)
     return d
 
@@ -66,7 +66,7 @@ UNIT = {
                     ('stashing', 'final(self).stashing()')]),
         fn('evaluate_invocable', ret='r',
            ensures=[('ok_iff_deployed', 'r is Ok <==> self.model_evaluators_by_name@.contains_key(skey(model_name@))')]),
-        fn('deploy', ret='r', props=['C17', 'C12'], auto_props=['C17', 'C12'],
+        fn('deploy', ret='r', props=['C17', 'C12', 'C18'], auto_props=['C17', 'C12', 'C18'],
            requires=[('wf', 'old(self).wf()')],
            loops=1,
            loop_specs={0: {
@@ -99,6 +99,7 @@ UNIT = {
 }
 
 NOT_DECIDED = {
+    'C18': ['the workspace operations behind the definitions endpoints (see C17)'],
     'C17': [
         'load_and_deploy_models (directory walk, file reads): assumed to preserve the invariant; it only calls add() and deploy()',
         'server/src/server.rs handlers that call these operations (C18)',
